@@ -10,6 +10,7 @@ package c06
 import (
 	"context"
 	"fmt"
+	"net"
 	"testing"
 
 	"github.com/emersion/go-message/textproto"
@@ -21,12 +22,14 @@ import (
 	"github.com/foxcpp/maddy/internal/target/remote"
 	"github.com/foxcpp/maddy/internal/zzverif/mx"
 	"verifkit/rep"
+	"verifkit/smtpd"
 )
 
 const (
 	groupD = 1_000_000
 	groupR = 2_000_000
 	groupS = 3_000_000
+	groupQ = 4_000_000
 )
 
 func dmarcGroup(t *testing.T, r *rep.Reporter) {
@@ -201,5 +204,209 @@ func remoteGroup(t *testing.T, r *rep.Reporter) {
 			}
 			c.Done(fmt.Sprintf("remote-quarantined-%d", j), true)
 		})
+	}
+}
+
+// ---------------------------------------------------------------------------
+// Group Q: the real `remote` target BEHIND a real pipeline. In a pipeline the
+// quarantine flag is set only when check results are applied at body time, i.e.
+// after the remote target has already accepted the recipients; the refusal must
+// then come from the body step itself, on the atomic (SMTP) and on the
+// per-recipient (LMTP / queue) path. The next hop is a scripted server that
+// accepts everything, so "refused" is decided by what reached it: any DATA
+// command of a quarantined message is a violation.
+
+type q6Resolver struct{}
+
+func (q6Resolver) LookupAddr(ctx context.Context, addr string) ([]string, error) {
+	return nil, &net.DNSError{Err: "no such host", Name: addr, IsNotFound: true}
+}
+func (q6Resolver) LookupHost(ctx context.Context, host string) ([]string, error) {
+	return []string{"127.0.0.1"}, nil
+}
+func (q6Resolver) LookupMX(ctx context.Context, name string) ([]*net.MX, error) {
+	return []*net.MX{{Host: "mx.c06-nexthop.invalid.", Pref: 10}}, nil
+}
+func (q6Resolver) LookupTXT(ctx context.Context, name string) ([]string, error) {
+	return nil, &net.DNSError{Err: "no such host", Name: name, IsNotFound: true}
+}
+func (q6Resolver) LookupIPAddr(ctx context.Context, host string) ([]net.IPAddr, error) {
+	return []net.IPAddr{{IP: net.IPv4(127, 0, 0, 1)}}, nil
+}
+
+func remotePipelineGroup(t *testing.T, r *rep.Reporter) {
+	sources := []string{"none", "check-conn", "check-sender", "check-rcpt-first", "check-rcpt-last", "check-body", "dmarc-policy", "check-body+dmarc-policy"}
+	idx := 0
+	for _, src := range sources {
+		for _, partial := range []bool{false, true} {
+			for _, nrcpt := range []int{1, 2} {
+				for _, pooling := range []bool{false, true} {
+					i := groupQ + idx
+					idx++
+					src, partial, nrcpt, pooling := src, partial, nrcpt, pooling
+					r.Run(i, fmt.Sprintf("remote-behind-pipeline-%s-partial=%v-rcpts=%d-pool=%v", src, partial, nrcpt, pooling), func(c *rep.Case) {
+						tag := fmt.Sprintf("c06q%d", i-groupQ)
+						srv, err := smtpd.New(smtpd.Config{ListenAddr: "127.0.0.1:0", Hostname: "nexthop.invalid", PIPELINING: true, EightBitMIME: true})
+						if err != nil {
+							c.Inconclusive("cannot start the scripted server: " + err.Error())
+							c.Done("", false)
+							return
+						}
+						defer srv.Close()
+						addr := srv.Addr()
+						reuse := -1
+						if pooling {
+							reuse = 0
+						}
+						rt, err := remote.VerifNewTarget(remote.VerifTargetOpts{
+							Name: tag + "_remote", Hostname: "mx.c06.example", Resolver: q6Resolver{},
+							Dialer: func(ctx context.Context, network, _ string) (net.Conn, error) {
+								return (&net.Dialer{}).DialContext(ctx, "tcp", addr)
+							},
+							NoTLS: true, ConnReuseLimit: reuse,
+						})
+						if err != nil {
+							t.Fatalf("remote target: %v", err)
+						}
+						rtClosed := false
+						closeRT := func() {
+							if !rtClosed { // pool.P.Close must not be called twice
+								rtClosed = true
+								rt.Close()
+							}
+						}
+						defer closeRT()
+						mx.RegisterInstance(rt)
+						defer mx.RegisterInstance(tomb{tag + "_remote"})
+
+						rcpts := []string{"first@dest-one.example", "last@dest-two.example"}[:nrcpt]
+						lastRcpt := rcpts[len(rcpts)-1]
+						lg := mx.NewLog()
+						ch := mx.NewCheck(tag+"_C", lg)
+						quarantineAt := func(stage, arg string) bool {
+							switch src {
+							case "check-conn":
+								return stage == "conn"
+							case "check-sender":
+								return stage == "sender"
+							case "check-rcpt-first":
+								return stage == "rcpt" && arg == rcpts[0]
+							case "check-rcpt-last":
+								return stage == "rcpt" && arg == lastRcpt
+							case "check-body", "check-body+dmarc-policy":
+								return stage == "body"
+							}
+							return false
+						}
+						dmarcFail := src == "dmarc-policy" || src == "check-body+dmarc-policy"
+						ch.Result = func(p mx.CheckPoint) module.CheckResult {
+							res := module.CheckResult{}
+							if quarantineAt(p.Stage, p.Arg) {
+								res = actions[vQuarantine].Apply(module.CheckResult{Reason: fmt.Errorf("c06 %s-stage quarantine", p.Stage)})
+							}
+							if p.Stage == "body" {
+								if dmarcFail {
+									res.AuthResult = []authres.Result{
+										&authres.DKIMResult{Value: authres.ResultFail, Domain: "example.org", Identifier: "@example.org"},
+										&authres.SPFResult{Value: authres.ResultFail, From: "example.org", Helo: "mx.example.org"},
+									}
+								} else {
+									res.AuthResult = []authres.Result{
+										&authres.DKIMResult{Value: authres.ResultPass, Domain: "example.org", Identifier: "@example.org"},
+										&authres.SPFResult{Value: authres.ResultNone, From: "example.org", Helo: "mx.example.org"},
+									}
+								}
+							}
+							return res
+						}
+						ref := mx.CheckRef(ch)
+						pl, err := mx.BuildPipeline("dmarc yes\ncheck {\n    "+ref+"\n}\ndeliver_to &"+tag+"_remote\n", nil)
+						mx.CheckUnref(ch)
+						if err != nil {
+							t.Fatalf("remote-behind-pipeline config refused: %v", err)
+						}
+						pl.Hostname = "mx.c06.example"
+						pl.Resolver = &mockdns.Resolver{Zones: map[string]mockdns.Zone{
+							"_dmarc.example.org.": {TXT: []string{"v=DMARC1; p=quarantine"}},
+						}}
+						ctx := context.Background()
+						meta := &module.MsgMetadata{ID: tag, OriginalFrom: "sender@example.org", DontTraceSender: true,
+							Conn: &module.ConnState{Hostname: "client.example.org", Proto: "ESMTP"}}
+						d, err := pl.Start(ctx, meta, "sender@example.org")
+						if err != nil {
+							t.Fatalf("remote-behind-pipeline: Start failed: %v", err)
+						}
+						accepted := 0
+						for _, rc := range rcpts {
+							if err := d.AddRcpt(ctx, rc, smtp.RcptOptions{}); err == nil {
+								accepted++
+							}
+						}
+						hdr := textproto.Header{}
+						hdr.Add("From", "<sender@example.org>")
+						hdr.Add("Subject", "c06 remote behind pipeline "+tag)
+						body := buffer.MemoryBuffer{Slice: []byte("token-" + tag + "\r\n")}
+						refusedAll := accepted == 0
+						var statuses []string
+						if accepted > 0 {
+							if !partial {
+								err := d.Body(ctx, hdr, body)
+								refusedAll = err != nil
+								statuses = append(statuses, fmt.Sprintf("Body=%v", err))
+							} else {
+								col := &statusCollector{st: map[string]error{}}
+								d.(module.PartialDelivery).BodyNonAtomic(ctx, col, hdr, body)
+								refusedAll = true
+								for _, rc := range rcpts {
+									if col.st[rc] == nil {
+										refusedAll = false
+									}
+									statuses = append(statuses, fmt.Sprintf("%s=%v", rc, col.st[rc]))
+								}
+							}
+						}
+						if refusedAll {
+							d.Abort(ctx)
+						} else {
+							d.Commit(ctx)
+						}
+						closeRT()
+						srv.Close()
+						dataCmds, payloads := 0, 0
+						var txl []string
+						for _, tx := range srv.Txns() {
+							if tx.DataCmdCode != 0 {
+								dataCmds++
+							}
+							if len(tx.Data) > 0 || tx.DataReceived {
+								payloads++
+							}
+							txl = append(txl, fmt.Sprintf("conn%d txn%d MAIL<%s> DATA=%d dot=%d payload=%dB", tx.Conn, tx.N, tx.From, tx.DataCmdCode, tx.DotCode, len(tx.Data)))
+						}
+						r.Count("remote_behind_pipeline_executions", 1)
+						w := map[string]any{"quarantine_source": src, "per_recipient_body_path": partial, "recipients": rcpts, "pooling": pooling,
+							"statuses": statuses, "next_hop_transactions": txl, "log": lg.Strings(30)}
+						path := "smtp-body"
+						if partial {
+							path = "lmtp-body"
+						}
+						switch {
+						case src == "none" && (refusedAll || payloads == 0):
+							// control: without a quarantine verdict the same set-up delivers
+							t.Fatalf("remote-behind-pipeline control case did not deliver: %v %v", statuses, txl)
+						case src == "none":
+							r.Count("remote_behind_pipeline_control_delivered", 1)
+						case dataCmds > 0 || payloads > 0:
+							c.Violation("remote/quarantined-message-relayed/"+path+"/"+src, fmt.Sprintf("a check or the DMARC policy quarantined the message (%s) but the remote target sent it to the next hop (%d DATA commands, %d payloads)", src, dataCmds, payloads), w)
+						case !refusedAll:
+							c.Violation("remote/quarantined-message-not-refused/"+path+"/"+src, "a check or the DMARC policy quarantined the message but the remote target reported success for a recipient", w)
+						default:
+							r.Count("remote_behind_pipeline_refused_quarantined", 1)
+						}
+						c.Done(fmt.Sprintf("remote-behind-pipeline %s partial=%v rcpts=%d pool=%v", src, partial, nrcpt, pooling), true)
+					})
+				}
+			}
+		}
 	}
 }
